@@ -7,6 +7,8 @@ import (
 	"sort"
 	"strings"
 	"time"
+
+	"golang.org/x/tools/go/ssa"
 )
 
 func main() {
@@ -107,6 +109,35 @@ func doDump(P *Program, what string) {
 			fmt.Println(k, P.Pos(P.Funcs[k].Pos()))
 		}
 		fmt.Println(len(keys), "functions;", len(P.AllFuncs), "incl. anonymous")
+	case strings.HasPrefix(what, "terms:"):
+		f := P.Func(strings.TrimPrefix(what, "terms:"))
+		if f == nil {
+			fmt.Println("no such function")
+			return
+		}
+		be := P.bigEval(f)
+		for _, c := range callsIn(f) {
+			call, ok := c.(*ssa.Call)
+			if !ok {
+				continue
+			}
+			if ts, ok := be.At[call]; ok {
+				var ss []string
+				for _, t := range ts {
+					ss = append(ss, t.String())
+				}
+				fmt.Printf("%s %s(%s)", P.Pos(call.Pos()), calleeName(call), strings.Join(ss, " ; "))
+				if r, ok := be.Ret[call]; ok {
+					fmt.Printf(" => %s", r.String())
+				}
+				fmt.Println()
+			}
+		}
+		for _, r := range returnsOf(f) {
+			for v, t := range be.Use[r] {
+				fmt.Printf("return@%s %s = %s\n", P.Pos(r.Pos()), desc(v), t.String())
+			}
+		}
 	case strings.HasPrefix(what, "ssa:"):
 		f := P.Func(strings.TrimPrefix(what, "ssa:"))
 		if f == nil {
